@@ -171,6 +171,8 @@ fn corpus(tier: Tier) -> Arc<Vec<Vec<u8>>> {
         RVal::Arr(vec![RVal::Arr(vec![RVal::u(1 << 33), RVal::Str("n".repeat(270))]), RVal::Null]),
     ];
     c.extend(big.iter().map(enc));
+    // tag-like payloads: bytes inside payloads that look like headers, entry words and type tags
+    c.extend(refmodel::gen::tagv_relation_docs().iter().map(enc));
     c.sort();
     c.dedup();
     Arc::new(c)
